@@ -19,6 +19,8 @@ import (
 
 func init() { registry["C10"] = checkC10 }
 
+var constLenCond = regexp.MustCompile(`^\(?len\(param#\d+\)\s*(!=|<|>|<=|>=|==)\s*\d+\)?$`)
+
 var decoderName = regexp.MustCompile(`^(Unmarshal|SetBytes|FromBytes|FromString|Import|Unpack|Parse|Decode|Verify|Decapsulate|AuthDecapsulate|Open|Decrypt|Setup|Finalize|ExtractFromCiphertext|CouldDecrypt|Recover|CombineSignShares|BlindSign|PrepInit|PrepNext|PrepSharesToPrep|Unshard|Evaluate|FullEvaluate|VerifyFinalize|Round\d|Run|SchemeByOid)`)
 
 func untrustedParam(t types.Type) bool {
@@ -616,7 +618,34 @@ func checkC10(c *Ctx) {
 				}
 			}
 			if isDecoder[f] && strings.Contains(tc, "len(") && strings.Contains(strings.ToLower(docOf(f)), "panic") {
-				c.ok("C10.panic", construct, "documented length precondition of the entry point (its doc comment says it panics)", pos)
+				// the contract is the caller's to keep: library code that hands input bytes to this entry point
+				// directly has to establish the length first (an error-returning parser that drops its own
+				// length check turns the documented panic into a panic on hostile input)
+				var bs []siteBinding
+				var sites []ssa.CallInstruction
+				if constLenCond.MatchString(tc) {
+					// (only where the documented length is a constant: a length given by a size accessor cannot be
+					// related to the caller's own test by the prover)
+					bs, sites = eng.callerBindings(f)
+				}
+				var open []string
+				for i, bd := range bs {
+					blc := eng.ctxWith(f, bd.ints)
+					bbase := eng.paramFactsIn(blc, f)
+					for par, n := range bd.lens {
+						l := blc.lenOf(par)
+						bbase = append(bbase, l.plus(-n), newLin(n).sub(l))
+					}
+					if !blc.unreachAt(pn, bbase) {
+						open = append(open, p.pos(sites[i].Pos()))
+					}
+				}
+				if len(open) > 0 {
+					sort.Strings(open)
+					c.bad("C10.panic", construct, "documented length precondition, but the library itself calls the function on input bytes without establishing the length at "+strings.Join(open, ", "), pos)
+					continue
+				}
+				c.ok("C10.panic", construct, fmt.Sprintf("documented length precondition of the entry point (its doc comment says it panics); the %d direct callers inside the library establish it", len(bs)), pos)
 				continue
 			}
 			if why, ok := findException(c10PanicExceptions, fname(f), tc); ok {
@@ -727,6 +756,93 @@ func c10Lemmas(c *Ctx, p *Program) {
 	for _, n := range []int64{1, 15} {
 		c.guard(p, "C10.lemma", fmt.Sprintf("a ciphertext of %d bytes is rejected", n), p.Func("cipher/ascon", "Cipher", "Open"),
 			GuardSpec{Args: map[string]lat{"ciphertext": latSliceLen(n), "nonce": latSliceLen(16)}})
+	}
+	checkOptionalFields(c, p, "C10.nil", nil)
+	// tkn20: a decoded formula reaches wellformed() with arbitrary wire numbers in its gates (they travel in
+	// struct fields, which the taint analysis does not follow): every table access indexed by a gate field is
+	// preceded, on the accepting side, by a lower and an upper test of that field
+	{
+		f := p.Func("abe/cpabe/tkn20/internal/tkn", "Formula", "wellformed")
+		what := "(*tkn.Formula).wellformed: every table indexed by a wire number of a gate is indexed only after a lower and an upper test of that number"
+		if f == nil {
+			c.undecided("C10.lemma", what, "anchor function does not resolve", "")
+		} else {
+			gateField := func(v ssa.Value) string { // "In0" / "In1" / "Out" when v is (an affine function of) a gate field
+				for i := 0; i < 8; i++ {
+					switch x := v.(type) {
+					case *ssa.Field:
+						if st, ok := x.X.Type().Underlying().(*types.Struct); ok {
+							return st.Field(x.Field).Name()
+						}
+						return ""
+					case *ssa.UnOp:
+						if fa, ok := x.X.(*ssa.FieldAddr); ok && x.Op == token.MUL {
+							return fieldName(fa)
+						}
+						return ""
+					case *ssa.BinOp:
+						if _, isK := x.Y.(*ssa.Const); isK || x.Op == token.SUB || x.Op == token.ADD {
+							v = x.X
+							continue
+						}
+						return ""
+					case *ssa.Convert:
+						v = x.X
+						continue
+					}
+					return ""
+				}
+				return ""
+			}
+			n := 0
+			var bad []string
+			for _, b := range f.Blocks {
+				for _, in := range b.Instrs {
+					ia, ok := in.(*ssa.IndexAddr)
+					if !ok {
+						continue
+					}
+					fld := gateField(ia.Index)
+					if fld == "" {
+						continue
+					}
+					n++
+					lower, upper := false, false
+					for d := b; d.Idom() != nil; d = d.Idom() {
+						pd := d.Idom()
+						ifi, ok := pd.Instrs[len(pd.Instrs)-1].(*ssa.If)
+						if !ok || len(d.Preds) != 1 || pd.Succs[1] != d {
+							continue // only tests whose failing (true) branch leaves with an error
+						}
+						cmp, ok := ifi.Cond.(*ssa.BinOp)
+						if !ok || gateField(cmp.X) != fld {
+							continue
+						}
+						switch cmp.Op {
+						case token.GTR, token.GEQ:
+							upper = true
+						case token.LSS, token.LEQ:
+							lower = true
+						}
+					}
+					if !lower || !upper {
+						miss := "lower"
+						if lower {
+							miss = "upper"
+						}
+						bad = append(bad, fmt.Sprintf("%s: the index derived from gate.%s has no dominating %s test", p.pos(ia.Pos()), fld, miss))
+					}
+				}
+			}
+			switch {
+			case n < 3:
+				c.undecided("C10.lemma", what, fmt.Sprintf("only %d accesses indexed by a gate field found (expected In0, In1, Out)", n), p.fnPos(f))
+			case len(bad) > 0:
+				c.bad("C10.lemma", what, strings.Join(bad, "; "), p.fnPos(f))
+			default:
+				c.ok("C10.lemma", what, fmt.Sprintf("%d accesses, each behind both tests", n), p.fnPos(f))
+			}
+		}
 	}
 	// ascon: sliceForAppend re-slices its input up to total = len(in)+n only where cap(in) >= total holds
 	// (the fact the hand proof of the exception cites)
